@@ -540,8 +540,10 @@ def swrite_tree(t):
     return str(t)
 
 
-Lib.depth_quick = 4
-Lib.depth_thorough = 5
+# (alphabet level, maximal history length) per tier.  level 0 < level 1 < level 2 are nested alphabets.
+# quick   : reduced alphabet (level 0) to length 4, core alphabet (level 1) to length 3, every extended op to length 2
+# thorough: core alphabet to length 4, extended alphabet to length 3, reduced alphabet to length 5
+Lib.plan = {"quick": [(0, 4), (1, 3), (2, 2)], "thorough": [(1, 4), (2, 3), (0, 5)]}
 LIBS = {}
 
 
@@ -1115,5 +1117,7 @@ class Ideques(Lib):
         A("zip cur cur -> map car", "(ideque-map car (ideque-zip cur cur))", lambda d, c: d, ext=True)
 
 
+# the iset alphabet has 12 elements (24 adjoin/delete operations): level 0 uses the 6-element sub-alphabet
+# {0 1 32 64 255 1024}, level 1 all 12 elements.
 for _c in (Mappings, Isets, Rlists, Queues, Ideques):
     register(_c)
